@@ -24,6 +24,16 @@ CLAIMED = {
             'Trusted: mc/holsem.py (finite-model evaluator, self-tested on the base-logic axioms and on invalid sequents), mc/ref.py. '
             'Finite models only refute; last-layer premises are bounded by sequent size; Some/The axioms are not used.',
             'DESIGN.md §3 C01'),
+    'C02': ('model_checking',
+            'explicit-state BFS over proof objects executed on the real checker, reference-checker + semantic oracle',
+            'States are proof objects accepted by the real checker, transitions append one item from a menu that covers ids '
+            'disagreeing with positions, forward/self/foreign/closed-block citations, exact/weaker/stronger/unrelated stated '
+            'sequents, placeholders, blank lines, nested blocks and macro steps (incl. macros whose expansion holds a placeholder); '
+            'every transition runs theory.check_proof with gaps allowed and disallowed and is compared with a position-based '
+            'reference checker, the finite-model oracle and gap accounting; plus all (stated theorem, proof) pairs of checked_extend.',
+            'Trusted: the reference checker in mc/props/c02.py (7 rules over one boolean variable), mc/holsem.py. States are merged '
+            'by the table path -> (id, sequent, placeholder?, block?) (argument in state_key). Depth 3 (thorough 4), menus in bounds.',
+            'DESIGN.md §3 C02'),
 }
 
 PENDING_REASON = 'check not built yet in this round (planned, see DESIGN.md §3/§7); not claimed until its machinery exists'
